@@ -322,12 +322,17 @@ def _weights(case, values, grid, tree_dist, tags, classes):
         prev_particle = particle
         prev_tree = particle.tree
     # last-step correction applied by the sampler
-    sampler.iteration = sampler.num_iterations - 1
-    final = float(sampler._get_log_w(path[-1]))
     lp1 = float(tree_dist.log_p_one(tree))
-    expect_final = float(path[-1].log_w) - prev_lp + lp1
-    if abs(final - expect_final) > 1e-8 * max(1.0, abs(expect_final)):
-        raise Violation(comp + "/final", "last-step weight %.12g, expected log_w - log_p + log_p_one = %.12g" % (final, expect_final), tags)
+    if hasattr(sampler, "_get_log_w"):
+        sampler.iteration = sampler.num_iterations - 1
+        final = float(sampler._get_log_w(path[-1]))
+        expect_final = float(path[-1].log_w) - prev_lp + lp1
+        if abs(final - expect_final) > 1e-8 * max(1.0, abs(expect_final)):
+            raise Violation(comp + "/final", "last-step weight %.12g, expected log_w - log_p + log_p_one = %.12g" % (final, expect_final), tags)
+    else:
+        # internal helper renamed by a refactor: the last-step correction is then only observed through C01's
+        # exact invariance (n = 1 with outliers is its minimal witness)
+        classes.append("final-weight-helper-missing(skipped)")
     target = lp1 + prev_pdf
     got = total - prev_lp + lp1
     if abs(got - target) > 1e-7 * max(1.0, abs(target)):
